@@ -1,11 +1,13 @@
 package main
 
 import (
-	"strconv"
 	"fmt"
+	"reflect"
+	"strconv"
 	"strings"
 
 	"github.com/cloudspannerecosystem/memefish/ast"
+	"github.com/cloudspannerecosystem/memefish/token"
 )
 
 // Tree-level correspondence commands: the real Pos()/End(), the repository's POS interpreter, and the real
@@ -39,6 +41,9 @@ func init() {
 	// tree-pe impl|spec : per node in pre-order "Type:pos,end"; impl = n.Pos()/n.End(), spec = tools/util/poslang.EvalPos
 	commands["tree-pe"] = func(args []string) {
 		which := args[0]
+		// impl-mut|spec-mut: every method is called once, then every valid position field of every node is shifted by 3 in place
+		mutate := strings.HasSuffix(which, "-mut")
+		which = strings.TrimSuffix(which, "-mut")
 		if which == "spec" {
 			if err := loadPosCatalog(); err != nil {
 				panic(err)
@@ -49,6 +54,20 @@ func init() {
 			if r.panicked {
 				fmt.Fprintf(out, "%s %s => PANIC\n", ename, hex)
 				return
+			}
+			if mutate {
+				seen := map[ast.Node]bool{}
+				for _, ni := range allNodes(r.nodes) {
+					n := ni.node
+					if seen[n] {
+						continue
+					}
+					seen[n] = true
+					safely("warm", func() { _ = n.Pos(); _ = n.End() })
+				}
+				for n := range seen {
+					shiftPosFields(n, 3)
+				}
 			}
 			var sb strings.Builder
 			for _, ni := range allNodes(r.nodes) {
@@ -405,5 +424,25 @@ func init() {
 			// SQL() of the result must need no parenthesis that was not in the source, and add none
 			fmt.Fprintf(out, "%s => %s | %s\n", h, s, hx(r.nodes[0].SQL()))
 		})
+	}
+}
+
+
+// shiftPosFields adds d to every valid token.Pos field of the node's own struct (not of its children)
+func shiftPosFields(n ast.Node, d int) {
+	v := reflect.ValueOf(n)
+	if v.Kind() != reflect.Ptr || v.IsNil() {
+		return
+	}
+	v = v.Elem()
+	if v.Kind() != reflect.Struct {
+		return
+	}
+	posType := reflect.TypeOf(token.Pos(0))
+	for i := 0; i < v.NumField(); i++ {
+		f := v.Field(i)
+		if f.Type() == posType && f.CanSet() && f.Int() >= 0 {
+			f.SetInt(f.Int() + int64(d))
+		}
 	}
 }
